@@ -301,6 +301,12 @@ def build(tier, seed):
                ['placement/objects/resource_provider.py:_add_inventory_to_provider'])
     chk.script('_update_inventory_for_provider', script_update_inventory,
                ['placement/objects/resource_provider.py:_update_inventory_for_provider'])
+    chk.script('_serialize_inventory', script_serialize_inventory,
+               ['placement/handlers/inventory.py:_serialize_inventory'])
+    chk.script('_serialize_inventories', script_serialize_inventories,
+               ['placement/handlers/inventory.py:_serialize_inventories'])
+    chk.script('_serialize_provider', script_serialize_provider,
+               ['placement/handlers/resource_provider.py:_serialize_provider'])
     chk.script('set_allocations', C01.script_set,
                ['placement/objects/allocation.py:_set_allocations'])
     chk.keep_prefixes = ('C11.', 'C01.set.post.exact', 'C01.set.post.never',
@@ -618,6 +624,123 @@ def script_update_inventory(ex):
             z3.Select(t.exists, k) == z3.Select(t0.exists, k),
             *[z3.Select(t.data[c], k) == z3.Select(t0.data[c], k)
               for c in INV_COLS])), patterns=[z3.Select(t.exists, k)]), 'T')
+
+
+# --------------------------------------------------------------------------
+# read side: the serialisers report the fields of the objects they are given
+def _eq(I, a, b):
+    return ops.z3bool(I.truth_term(I._b(I.eq(a, b))))
+
+
+def script_serialize_inventory(ex):
+    reg = H.web_registry()
+    I = Interp(ex, reg)
+    inv = I.fresh('inventory', ('obj', INV))
+    gen = I.fresh('generation', 'int', nullable=True)
+    out = I.call(inv_handler._serialize_inventory, [inv, gen], {})
+    if not isinstance(out, VDict):
+        raise Undecided('_serialize_inventory returned %r' % (out,))
+    fields = list(inv_handler.OUTPUT_INVENTORY_FIELDS)
+    ex.oblige('C11.T.serialize_inventory.keys',
+              set(out.items) - {'resource_provider_generation'} == set(fields),
+              'T', {'keys': sorted(out.items)})
+    for f in fields:
+        if f in out.items:
+            ex.oblige('C11.T.serialize_inventory.%s' % f,
+                      _eq(I, out.items[f], I.read_field(inv, f)), 'T')
+    if 'resource_provider_generation' in out.items:
+        ex.oblige('C11.T.serialize_inventory.generation',
+                  _eq(I, out.items['resource_provider_generation'], gen), 'T')
+
+
+def script_serialize_inventories(ex):
+    reg = H.web_registry()
+    I = Interp(ex, reg)
+    lst = I.fresh_list('inventories', ('obj', INV))
+    j, j2 = z3.Ints('j!ser j2!ser')
+    e = z3.Select(lst.arr, j)
+    ex.hyp(ops.forall([j], z3.Implies(
+        z3.And(j >= 0, j < lst.len),
+        z3.Not(z3.Select(I.fld_none(INV, 'resource_class'), e))),
+        patterns=[z3.Select(lst.arr, j)]))
+    # one inventory per class on a provider (unique key of the table)
+    ex.hyp(ops.forall([j, j2], z3.Implies(
+        z3.And(j >= 0, j < j2, j2 < lst.len),
+        z3.Select(I.fld(INV, 'resource_class'), e) !=
+        z3.Select(I.fld(INV, 'resource_class'), z3.Select(lst.arr, j2))),
+        patterns=[z3.MultiPattern(z3.Select(lst.arr, j),
+                                  z3.Select(lst.arr, j2))]))
+    gen = I.fresh('generation', 'int')
+    res = I.call(inv_handler._serialize_inventories, [lst, gen], {})
+    if not (isinstance(res, tuple) and isinstance(res[0], VDict)):
+        raise Undecided('_serialize_inventories returned %r' % (res,))
+    body = res[0]
+    ex.oblige('C11.T.serialize_inventories.generation',
+              _eq(I, body.items.get('resource_provider_generation'), gen), 'T')
+    coll = body.items.get('inventories')
+    seq = I.loop_sequence(coll, 'ser') if not hasattr(coll, 'sequence') \
+        else coll.sequence(I, 'ser', 'items')
+    q = z3.Int(ex.fresh_name('q.ser'))
+    ex.assume(z3.And(q >= 0, q < seq.len))
+    entry = seq.element(I, q)
+    if not (isinstance(entry, tuple) and isinstance(entry[1], VDict)):
+        raise Undecided('inventories entry %r' % (entry,))
+    key, data = entry
+    kt = to_term(key, 'str')
+    # the entry under class `key` reports the fields of THE inventory of that
+    # class in the list
+    w = z3.Int('w!ser')
+    ew = z3.Select(lst.arr, w)
+    same = [z3.Select(I.fld(INV, 'resource_class'), ew) == kt]
+    for f in inv_handler.OUTPUT_INVENTORY_FIELDS:
+        if f not in data.items:
+            ex.oblige('C11.T.serialize_inventories.field_present', False, 'T',
+                      {'field': f})
+            return
+        v = data.items[f]
+        ty = 'real' if f == 'allocation_ratio' else 'int'
+        if f == 'resource_class':
+            continue
+        same.append(to_term(v, ty) == z3.Select(I.fld(INV, f), ew))
+    ex.oblige('C11.T.serialize_inventories.entry_reports_its_inventory',
+              z3.Exists([w], z3.And(w >= 0, w < lst.len, *same)), 'T')
+    j0 = z3.Int('j0!ser')
+    qv = z3.Int('qv!ser')
+    kq = seq.element(I, qv)
+    kq = to_term(kq[0] if isinstance(kq, tuple) else kq, 'str')
+    ex.oblige('C11.T.serialize_inventories.every_inventory_reported', z3.Implies(
+        z3.And(j0 >= 0, j0 < lst.len),
+        z3.Exists([qv], z3.And(qv >= 0, qv < seq.len, kq == z3.Select(
+            I.fld(INV, 'resource_class'), z3.Select(lst.arr, j0))))), 'T')
+
+
+def script_serialize_provider(ex):
+    from placement.handlers import resource_provider as rp_handler
+    reg = H.web_registry()
+    I = Interp(ex, reg)
+    ctx = lib.CtxStub()
+    I.ghost['ctx'] = ctx
+    ver = web.fresh_version(I)
+    env = web.EnvironStub(ctx, ver)
+    rp = I.fresh('rp', ('obj', classes.RP))
+    reg['calls'][id(__import__('placement.util', fromlist=['x'])
+                    .resource_provider_url)] = \
+        lambda I_, a, k: I_.fresh('url', 'str')
+    out = I.call(rp_handler._serialize_provider, [env, rp, ver], {})
+    if not isinstance(out, VDict):
+        raise Undecided('_serialize_provider returned %r' % (out,))
+    for f in ('uuid', 'name', 'generation'):
+        ex.oblige('C11.T.serialize_provider.%s' % f,
+                  f in out.items and _eq(I, out.items[f], I.read_field(rp, f))
+                  if f in out.items else False, 'T')
+    tree = 'parent_provider_uuid' in out.items
+    ex.oblige('C11.T.serialize_provider.tree_fields_from_1_14', z3.And(
+        z3.BoolVal('root_provider_uuid' in out.items) == z3.BoolVal(tree),
+        z3.BoolVal(tree) == (ver.minor >= 14)), 'T')
+    if tree:
+        for f in ('parent_provider_uuid', 'root_provider_uuid'):
+            ex.oblige('C11.T.serialize_provider.%s' % f,
+                      _eq(I, out.items[f], I.read_field(rp, f)), 'T')
 
 
 if __name__ == '__main__':
